@@ -125,13 +125,57 @@ LINKS = 'links(a@, b@, vals(r@), ai.pos as int, bi.pos as int, ia, ib, orig)'
 ST = 'st(a@, b@, ai.pos as int, bi.pos as int, ib)'
 
 
-def inner(k, dec, brk, nc):
-    """invariants of the three consuming loops of one round"""
-    return dict(
-        invariant=[C(f'C13.order.inv{k}.bookkeeping', f'{BASE} && {LINKS} && {ST}'),
-                   C(f'C13.order.inv{k}.progress', f'ai.pos >= i0 && bi.pos >= j0 && (no_change ==> ai.pos == i0 && bi.pos == j0) && (!no_change ==> ai.pos + bi.pos > i0 + j0) && (no_change ==> {nc})')],
-        ensures=[C(f'C13.order.inv{k}.left-because-the-condition-failed', brk)],
-        decreases=dec)
+ROLES = {
+    # role -> (decreases, fact that holds when the loop is left, ghost update after a pushed element)
+    'shared': ('a@.len() - ai.pos', '!(ai.pos < a@.len() && bi.pos < b@.len() && a@[ai.pos as int] == b@[bi.pos as int])',
+               'proof { ia = ia.push(r@.len() - 1); ib = ib.push(r@.len() - 1); orig = orig.push(ai.pos - 1); }'),
+    'client-only': ('a@.len() - ai.pos', '!(ai.pos < a@.len() && !b@.contains(a@[ai.pos as int]))',
+                    'proof { ia = ia.push(r@.len() - 1); orig = orig.push(ai.pos - 1); }'),
+    'server-only': ('b@.len() - bi.pos', '!(bi.pos < b@.len() && !a@.contains(b@[bi.pos as int]))',
+                    'proof { ib = ib.push(r@.len() - 1); orig = orig.push(-(bi.pos as int)); }'),
+}
+
+
+def roles_in_source_order(u):
+    """the three consuming loops of one round may stand in any order (each order satisfies the property): the invariants are attached by what
+    a loop consumes, not by its position"""
+    import re
+    from vx.rustcut import CutError
+    text = u.src(F).text
+    m = re.search(r'fn merge_preserve_order\b.*?\n}\n', text, re.S)
+    if not m:
+        raise CutError(f'{F}: fn merge_preserve_order not found')
+    roles = []
+    for it, cond in re.findall(r'while let Some\(\w+\) = (\w+)\.next_if\(\|\w+\| (.*)\) \{', m.group(0)):
+        if it == 'ai' and re.fullmatch(r'bi\.peek\(\)\.is_some_and\(\|(\w+)\| \1 == x\)', cond):
+            roles.append('shared')
+        elif it == 'ai' and cond == '!b.contains(x)':
+            roles.append('client-only')
+        elif it == 'bi' and cond == '!a.contains(x)':
+            roles.append('server-only')
+        elif it == 'ai' and 'peek()' not in cond:
+            roles.append('client-only')     # an unfamiliar condition: the verifier decides whether the loop still does what its place requires
+        elif it == 'bi' and 'peek()' not in cond:
+            roles.append('server-only')
+        else:
+            raise CutError(f'{F}: fn merge_preserve_order: consuming loop `{it}.next_if(|x| {cond})` is none of the three loops the contract knows')
+    if sorted(roles) != ['client-only', 'server-only', 'shared']:
+        raise CutError(f'{F}: fn merge_preserve_order: expected one loop of each kind, found {roles}')
+    return roles
+
+
+def inner(k, role, last):
+    """invariants of the k-th consuming loop of one round (k = 1..3)"""
+    dec, brk, upd = ROLES[role]
+    nc = 'true' if k == 1 else f'nc{k - 1}'
+    d = dict(
+        invariant=[C(f'C13.order.{role}.bookkeeping', f'{BASE} && {LINKS} && {ST}'),
+                   C(f'C13.order.{role}.progress', f'ai.pos >= i0 && bi.pos >= j0 && (no_change ==> ai.pos == i0 && bi.pos == j0) && (!no_change ==> ai.pos + bi.pos > i0 + j0) && (no_change ==> {nc})')],
+        ensures=[C(f'C13.order.{role}.left-because-the-condition-failed', brk)],
+        decreases=dec, body_end=upd)
+    if not last:
+        d['after'] = f'let ghost nc{k} = no_change;'
+    return d
 
 
 def build(u):
@@ -139,11 +183,12 @@ def build(u):
     u.raw(MIRROR, trusted=['PeekIter models core::iter::Peekable<core::slice::Iter<T>> (peek, next); next_if / is_some_and / Vec::extend / Iterator::filter / slice::contains '
                            'are replaced by their std definitions; T instantiated at u64 (parametricity in T: only == is used)'])
     u.lemma('C13.lemma.bookkeeping-gives-union-once-and-both-orders', LEMMA)
+    roles = roles_in_source_order(u)
     u.fn(F, 'merge_preserve_order', ret='r', canary=True,
          sig_rewrites=[(r"<'a, T: Clone \+ PartialEq>", "<'a>"), (r"std::vec::IntoIter<&'a T>", "Vec<&'a Key>"), (r'\[T\]', '[Key]')],
          rewrites=[
              (r'(\w+)\.iter\(\)\.peekable\(\)', r'PeekIter::new(\1)'),
-             (r'let mut r = Vec::with_capacity', "let mut r: Vec<&'a Key> = Vec::with_capacity"),
+             (r'let mut r = Vec::', "let mut r: Vec<&'a Key> = Vec::"),
              (r'while let Some\((\w+)\) = (\w+)\.next_if\(\|(\w+)\| (.*)\) \{',
               r'loop { let \1 = match \2.peek() { Some(\3) => \3, None => break }; if !(\4) { break; } \2.next();'),
              (r'(\w+)\.peek\(\)\.is_some_and\(\|(\w+)\| ([^()|]*)\)', r'(match \1.peek() { Some(\2) => \3, None => false })'),
@@ -160,14 +205,7 @@ def build(u):
                                 f'{BASE} && {LINKS} && bfull(ib) && (hyp(a@, b@) ==> bi.pos == b@.len())')],
                      decreases='(a@.len() - ai.pos) + (b@.len() - bi.pos)',
                      body_start='let ghost i0 = ai.pos; let ghost j0 = bi.pos;'),
-             1: dict(inner(1, 'a@.len() - ai.pos', '!(ai.pos < a@.len() && bi.pos < b@.len() && a@[ai.pos as int] == b@[bi.pos as int])', 'true'),
-                     body_end='proof { ia = ia.push(r@.len() - 1); ib = ib.push(r@.len() - 1); orig = orig.push(ai.pos - 1); }',
-                     after='let ghost nc1 = no_change;'),
-             2: dict(inner(2, 'a@.len() - ai.pos', '!(ai.pos < a@.len() && !b@.contains(a@[ai.pos as int]))', 'nc1'),
-                     body_end='proof { ia = ia.push(r@.len() - 1); orig = orig.push(ai.pos - 1); }',
-                     after='let ghost nc2 = no_change;'),
-             3: dict(inner(3, 'b@.len() - bi.pos', '!(bi.pos < b@.len() && !a@.contains(b@[bi.pos as int]))', 'nc2'),
-                     body_end='proof { ib = ib.push(r@.len() - 1); orig = orig.push(-(bi.pos as int)); }'),
+             1: inner(1, roles[0], False), 2: inner(2, roles[1], False), 3: inner(3, roles[2], True),
              4: dict(invariant=[C('C13.order.tail-client.bookkeeping', f'{BASE} && {LINKS} && bfull(ib) && (hyp(a@, b@) ==> bi.pos == b@.len())')],
                      ensures=[C('C13.order.tail-client.consumes-the-client-list', f'ai.pos == a@.len() && {BASE} && {LINKS}')],
                      decreases='a@.len() - ai.pos',
